@@ -12,6 +12,9 @@ DNA_MIXED = "ACGTNacgtn"
 
 
 def ident(min_size=1, max_size=12, alphabet=IDENT):
+    if min_size > 200:
+        # a very long field: a short generated text repeated to the length (Hypothesis does not draw texts of tens of thousands of characters)
+        return st.text(alphabet=alphabet, min_size=3, max_size=9).map(lambda t: (t * (max_size // len(t) + 1))[:max_size])
     return st.text(alphabet=alphabet, min_size=min_size, max_size=max_size)
 
 
@@ -24,7 +27,11 @@ def first_field(min_size=1, max_size=12):
 
 def uneven_widths(max_size):
     """Width strategy favouring 1 and very unequal widths in one column."""
-    return st.one_of(st.just(1), st.integers(1, 3), st.integers(1, max_size), st.just(max_size))
+    base = st.one_of(st.just(1), st.integers(1, 3), st.integers(1, max_size), st.just(max_size))
+    if max_size >= 8:
+        # now and then a field of 255..300 or 65536+ characters (one-byte and two-byte length limits)
+        return st.one_of(*([base] * 24), st.sampled_from([255, 256, 257, 300]), st.sampled_from([65535, 65536, 65537]))
+    return base
 
 
 def digits(n, first_nonzero=True):
@@ -38,7 +45,11 @@ def digits(n, first_nonzero=True):
 
 def uint_text(max_digits=9, canonical=True):
     """Text of a non-negative integer."""
-    base = st.one_of(st.just("0"), st.integers(1, max_digits).flatmap(digits))
+    base = st.one_of(st.just("0"), st.integers(1, max_digits).flatmap(digits), st.integers(1, max_digits).flatmap(digits))
+    if max_digits >= 9:
+        # values at and beyond the 32-bit limits, and up to 18 digits
+        base = st.one_of(base, base, base, st.sampled_from(["2147483647", "2147483648", "4294967295", "4294967296", "9007199254740993"]),
+                         st.integers(10, 18).flatmap(digits))
     if canonical:
         return base
     return st.one_of(base,
